@@ -1720,6 +1720,7 @@ func r0114(c *an.Ctx, rule string) {
 	r057(sub)          // extra update paths only narrow a mask that is there: a nil mask stays "all fields"
 	r058(sub, "R05.8") // masks reach fmutils normalised (reset/update masks naming a path and one it covers)
 	r068(sub, "R06.8") // an empty mask is not "no mask"
+	r0511(sub, "R05.11") // WithMore… options accumulate: two of them on one write both count
 	n := 0
 	for _, o := range sub.Obls {
 		o.Key = rule + "|" + o.Construct
